@@ -50,6 +50,50 @@ pub fn run_queries_io(prop: &str, spec: &FileSpec, bytes: &[u8], model: &Model, 
     yielded
 }
 
+/// Pairs of the battery's iterator-like queries (those with the longest model answers, forward
+/// with forward, forward with reverse, a query with itself) run alternately over sources sharing
+/// one file position.
+pub fn shared_position_pass(prop: &str, spec: &FileSpec, bytes: &[u8], model: &Model, queries: &[Query], acc: &mut Acc) {
+    let mut cand: Vec<(usize, &Query)> = queries
+        .iter()
+        .filter(|q| matches!(q, Query::Range { .. } | Query::Prefix { .. } | Query::Scan { mode: crate::query::CursorMode::Fresh, .. }))
+        .map(|q| (crate::query::model_query(model, q).len(), q))
+        .filter(|(n, _)| *n >= 2)
+        .collect();
+    cand.sort_by(|a, b| b.0.cmp(&a.0));
+    let fwd: Vec<&Query> = cand.iter().map(|c| c.1).filter(|q| !is_rev(q)).take(2).collect();
+    let rev: Vec<&Query> = cand.iter().map(|c| c.1).filter(|q| is_rev(q)).take(1).collect();
+    let mut pairs: Vec<(&Query, &Query)> = Vec::new();
+    if let Some(a) = fwd.first() {
+        pairs.push((a, a));
+        if let Some(b) = fwd.get(1) {
+            pairs.push((a, b));
+        }
+        if let Some(r) = rev.first() {
+            pairs.push((a, r));
+        }
+    }
+    for (qa, qb) in pairs {
+        acc.evaluations += 1;
+        acc.transitions += 1;
+        match crate::query::check_pair_shared_position(bytes, model, qa, qb) {
+            Ok(_) => acc.hist("pair_over_shared_file_position_ok"),
+            Err(msg) => {
+                acc.hist("violation");
+                acc.violation(Violation {
+                    signature: format!("shared;{};{};{}", serde_json::to_string(spec).unwrap(), serde_json::to_string(qa).unwrap(), serde_json::to_string(qb).unwrap()),
+                    summary: format!("{prop}: file {} {}: {msg}", serde_json::to_string(&spec.cfg).unwrap(), crate::c01::describe(spec)),
+                    case: json!({"kind": "query", "file": spec, "query": qa, "second_query": qb, "shared_position": true}),
+                });
+            }
+        }
+    }
+}
+
+fn is_rev(q: &Query) -> bool {
+    matches!(q, Query::Range { rev: true, .. } | Query::Prefix { rev: true, .. } | Query::Scan { rev: true, .. })
+}
+
 pub fn replay_query(prop: &str, case: &serde_json::Value) -> i32 {
     let spec: FileSpec = serde_json::from_value(case["file"].clone()).expect("bad replay: file");
     let q: Query = serde_json::from_value(case["query"].clone()).expect("bad replay: query");
@@ -64,6 +108,20 @@ pub fn replay_query(prop: &str, case: &serde_json::Value) -> i32 {
     let bytes = if case["v1"].as_bool().unwrap_or(false) { vlib::fmt::retrail_as_v1(&bytes).unwrap() } else { bytes };
     let model = Model::new(entries);
     let short_io = case["short_io"].as_bool().unwrap_or(false);
+    if case["shared_position"].as_bool().unwrap_or(false) {
+        let qb: Query = serde_json::from_value(case["second_query"].clone()).expect("bad replay: second_query");
+        return match crate::query::check_pair_shared_position(&bytes, &model, &q, &qb) {
+            Ok(n) => {
+                println!("replay: both iterators over the shared file position yield what the model says ({n} entries)");
+                0
+            }
+            Err(e) => {
+                println!("{e}");
+                println!("VIOLATION property={prop} replay=(replayed)");
+                1
+            }
+        };
+    }
     let r = if short_io { crate::query::check_query_short(&bytes, &model, &q) } else { check_query(&bytes, &model, &q) };
     match r {
         Ok(n) => {
